@@ -30,7 +30,7 @@ func unmarshal(b []byte, m gproto.Message) error { return gproto.Unmarshal(b, m)
 // Fault is one action of the fault plan, taken when the n-th inter-node call happens.
 type Fault struct {
 	At      int
-	Kind    string // tick | kill | killjob | savepoint | tickkill (a tick, and a kill Who calls behind it) | pubkill (a tick whose completed checkpoint is published late: a worker is killed first, the publication happens while the job deploys the recovery)
+	Kind    string // tick | kill | killjob | savepoint | tickkill (a tick, and a kill Who calls behind it) | slowassign (the AssignSplits calls of the next deployment take 3 ms each) | pubkill (a tick whose completed checkpoint is published late: a worker is killed first, the publication happens while the job deploys the recovery)
 	Retries int    // (bookkeeping of a tick that found a checkpoint in progress and comes back)
 	Who     int
 }
@@ -62,6 +62,7 @@ type Stats struct {
 	WMTicks                                                                 int // watermark ticks of the source runners (harness-driven)
 	HandlerPanics                                                           []string
 	PubDuringRecovery                                                       int // checkpoints whose publication was held until the job was deploying the recovery from a failure
+	SlowAssigns                                                             int // AssignSplits calls that took 3 ms
 }
 
 func buildData(p Program) (map[string][]Rec, map[string]int) {
@@ -152,7 +153,29 @@ func Run(p Program, c *hx.Case) (st Stats, err error) {
 	sort.SliceStable(pending, func(i, j int) bool { return pending[i].At < pending[j].At })
 	idx := 0
 	var onDeploy func() // runs once, in the first deploy call that follows (the job waits in that call)
+	slowAssign := 0     // AssignSplits calls that are slow (the network to the source runners is)
 	w.Gate = func(n int, kind, from, to string) {
+		if kind == "assign" {
+			w.mu.Lock()
+			slow := slowAssign > 0
+			if slow {
+				slowAssign--
+			}
+			w.mu.Unlock()
+			if slow {
+				// The call takes 3 ms. Should the job consider itself running
+				// meanwhile, its checkpoint timer may fire.
+				for i := 0; i < 30; i++ {
+					if w.Log.JobRunning() {
+						w.Tick()
+					}
+					time.Sleep(100 * time.Microsecond)
+				}
+				w.mu.Lock()
+				st.SlowAssigns++
+				w.mu.Unlock()
+			}
+		}
 		if kind == "deploy-op" {
 			w.mu.Lock()
 			f := onDeploy
@@ -290,6 +313,10 @@ settle:
 				}
 				w.Tick()
 				st.Ticks++
+			case "slowassign":
+				w.mu.Lock()
+				slowAssign = max(1, p.Cfg.Workers)
+				w.mu.Unlock()
 			case "wmtick":
 				w.WatermarkTick()
 				st.WMTicks++
@@ -845,6 +872,15 @@ func GenProgram(rt *rapid.T, faults []string, maxFaults int) Program {
 		// first, the publication happens while the job deploys the recovery
 		a := rapid.IntRange(2*p.Cfg.Workers+2, max(2*p.Cfg.Workers+3, span/2)).Draw(rt, "pubkillat")
 		p.Faults[len(p.Faults)-1] = Fault{At: a, Kind: "pubkill", Who: rapid.IntRange(0, 3).Draw(rt, "who3")}
+	}
+	if nf >= 2 && len(faults) >= 2 && faults[max(0, len(faults)-2)] == "kill" && rapid.IntRange(0, 4).Draw(rt, "slowassign") == 0 {
+		// a recovery whose split assignment is slow, a checkpoint as early as the
+		// job allows it, and a second failure that recovers from that checkpoint
+		a := rapid.IntRange(2*p.Cfg.Workers+2, max(2*p.Cfg.Workers+3, span/3)).Draw(rt, "slowat")
+		p.Faults[0] = Fault{At: a, Kind: "slowassign"}
+		p.Faults[1] = Fault{At: a + 1, Kind: "kill", Who: rapid.IntRange(0, 3).Draw(rt, "who4")}
+		p.Faults = append(p.Faults, Fault{At: a + rapid.IntRange(6, max(7, span/2)).Draw(rt, "gap4"), Kind: "tick"},
+			Fault{At: a + rapid.IntRange(12, max(13, span)).Draw(rt, "gap5"), Kind: "kill", Who: rapid.IntRange(0, 3).Draw(rt, "who5")})
 	}
 	// watermark ticks of the source runners, anywhere among the calls (they are not
 	// faults and do not count against the fault budget)
